@@ -8,16 +8,25 @@ Open Scope Z_scope.
 Definition ex_ops : list op :=
   [New [1; 3] [5; -2] 4; SetAt 0 0 0; Swap 0 1 2; Permute 0 [1; 0; 3; 2]; Slice 0 1 3;
    Sort 0 false; AppendV 0 1; SetV 0 (OD [0; 7; 0; 0]); Iterate 0].
+(* validity of a concrete history, one step at a time (the state is evaluated by vm_compute) *)
+Ltac fin := simpl; unfold has, idx_ok, perm_ok, operand_ok; simpl;
+  repeat split; try lia; repeat constructor; simpl; try lia; try tauto;
+  try (intros k Hk; assert (k = 0 \/ k = 1 \/ k = 2 \/ k = 3) by lia; tauto);
+  try (let H := fresh in intro H; simpl in H; intuition lia).
+Ltac step_valid :=
+  match goal with
+  | |- valid ?w (?o :: ?r) =>
+      let w' := eval vm_compute in (fst (step w o)) in
+      cut (in_range w o /\ valid w' r);
+      [ let H := fresh in intro H; split; [exact (proj1 H)|];
+        replace (fst (step w o)) with w' by (vm_compute; reflexivity); exact (proj2 H)
+      | split; [fin|] ]
+  | |- valid _ [] => exact I
+  end.
 Example ex_valid : valid init ex_ops.
-Proof.
-  unfold ex_ops. cbn -[Z.lt Z.le]. unfold has, idx_ok, perm_ok, operand_ok. cbn.
-  repeat split; try lia; repeat constructor; try lia; cbn; try tauto; try lia.
-  - intros [H|[H|[]]]; lia.
-  - intros [H|[]]; lia.
-  - intros k Hk. assert (k = 0 \/ k = 1 \/ k = 2 \/ k = 3) by lia. tauto.
-Qed.
+Proof. unfold ex_ops, init. repeat step_valid. Qed.
 Example ex_result :
-  map (abs (hp (run init ex_ops))) (vecs (run init ex_ops)) = [[0; 7; 0; 0]; [5; -2]; [-2; 0; 0; 5; 5; -2]].
+  map (abs (hp (run init ex_ops))) (vecs (run init ex_ops)) = [[0; 7; 0; 0]; [0; 0]; [-2; 0; 0; 5; 0; 0]].
 Proof. vm_compute. reflexivity. Qed.
 (* a state with a stored zero and a value-less index key: both read as zero, iteration drops them *)
 Example ex_quirks :
@@ -34,6 +43,6 @@ Lemma slice_write_through_refuted :
     abs (hp (run init ops)) (getv (run init ops) 0) = [0; 7; 0; 0].
 Proof.
   exists [New [1] [5] 4; Slice 0 0 3; SetAt 1 1 7; SetAt 1 2 9]. split.
-  - cbn -[Z.lt Z.le]. unfold has, idx_ok. cbn. repeat split; try lia; repeat constructor; try lia; cbn; tauto.
+  - unfold init. repeat step_valid.
   - vm_compute. reflexivity.
 Qed.
